@@ -2,6 +2,7 @@ package props
 
 import (
 	"fmt"
+	"io"
 	"math/rand"
 	"strconv"
 	"strings"
@@ -31,7 +32,7 @@ func (p *c08) Init(tier string, seed int64) {
 	p.nRand = p.pick(12000, 300000)
 }
 
-func (p *c08) N() int { return p.nEnum + p.nRand + c08Rec + c08Many }
+func (p *c08) N() int { return p.nEnum + p.nRand + c08Rec + c08Many + len(c08Special) }
 
 // c08Many: one execution with hundreds of captures of one kind, one after the other (nothing nested): whatever a
 // capture takes on entry it gives back on exit, the 300th time as the first.
@@ -391,6 +392,10 @@ func (p *c08) build(i int) (*Program, *c08gen) {
 }
 
 func (p *c08) Describe(i int) interface{} {
+	if i >= p.nEnum+p.nRand+c08Rec+c08Many {
+		prog := &Program{Templates: c08Special[i-(p.nEnum+p.nRand+c08Rec+c08Many)](), Main: "main", Ctx: map[string]interface{}{}}
+		return prog.describe()
+	}
 	if i >= p.nEnum+p.nRand+c08Rec {
 		_, sig := p.buildMany(i - p.nEnum - p.nRand - c08Rec)
 		return map[string]interface{}{"case": sig}
@@ -407,7 +412,48 @@ func (p *c08) Describe(i int) interface{} {
 	return d
 }
 
+// c08Special: capturing constructs whose own source writes nothing - what they capture is written by a block a child
+// template puts there, or comes back from a call - and values that are produced where no output is wanted.
+var c08Special = []func() map[string]*gen.Template{
+	func() map[string]*gen.Template { // an empty block (or one holding only statements) inside a capture, a section, a macro: the child fills it
+		empty := func(n string, body ...gen.Node) *gen.NBlock { return &gen.NBlock{Name: n, Body: body} }
+		base := []gen.Node{tx("["), &gen.NSetCap{Name: "cap", Body: []gen.Node{empty("nav")}}, tx("]<"), pr(nm("cap")), tx("|"), pr(nm("cap")), tx(">("),
+			&gen.NFilter{Filters: []string{"up"}, Body: []gen.Node{empty("sec", &gen.NSet{Name: "q", X: num(1)})}}, tx(")"),
+			&gen.NSetCap{Name: "cap2", Body: []gen.Node{&gen.NIf{Conds: []gen.Expr{&gen.EBool{V: true}}, Bodies: [][]gen.Node{{empty("deep", &gen.NComment{S: " nothing "}, empty("deeper"))}}}}}, tx("(:"), pr(nm("cap2")), tx(":)"),
+			&gen.NSetCap{Name: "cap3", Body: []gen.Node{&gen.NFor{Val: "i", Seq: &gen.EArr{Els: []gen.Expr{num(1), num(2)}}, Body: []gen.Node{empty("row")}}}}, tx("/"), pr(nm("cap3")), tx("/")}
+		child := []gen.Node{&gen.NExtends{Tpl: str("base")}, &gen.NBlock{Name: "nav", Body: []gen.Node{tx("Home."), pr(&gen.ECall{Fn: "fn", Args: []gen.Expr{str("nav")}})}},
+			&gen.NBlock{Name: "sec", Body: []gen.Node{tx("section.")}}, &gen.NBlock{Name: "deeper", Body: []gen.Node{tx("Deeper.")}}, &gen.NBlock{Name: "row", Body: []gen.Node{tx("r"), pr(nm("i")), tx(".")}}}
+		return map[string]*gen.Template{"main": tpl("main", child...), "base": tpl("base", base...)}
+	},
+	func() map[string]*gen.Template { // values produced inside do: a macro's, a block's, a capture handed on - the callee sees them
+		m := &gen.NMacro{Name: "m", Params: []string{"p"}, Body: []gen.Node{tx("M("), pr(nm("p")), tx(")")}}
+		return map[string]*gen.Template{"main": tpl("main", m, &gen.NBlock{Name: "b", Body: []gen.Node{tx("B.")}}, tx("|"),
+			&gen.NDo{X: &gen.ECall{Fn: "fn", Args: []gen.Expr{&gen.EMethod{X: nm("_self"), Name: "m", Args: []gen.Expr{str("x")}}}}},
+			&gen.NDo{X: &gen.ECall{Fn: "setvar", Args: []gen.Expr{str("r"), &gen.EMethod{X: nm("_self"), Name: "m", Args: []gen.Expr{str("y")}}}}}, pr(nm("r")), tx("|"),
+			&gen.NDo{X: &gen.ECall{Fn: "setvar", Args: []gen.Expr{str("r2"), &gen.EBlockFn{Name: str("b")}}}}, pr(nm("r2")), tx("|"),
+			&gen.NDo{X: &gen.ECall{Fn: "setvar", Args: []gen.Expr{str("r3"), &gen.ECall{Fn: "render", Args: []gen.Expr{str("inc")}}}}}, pr(nm("r3")), tx("|"),
+			&gen.NDo{X: &gen.EFilter{X: &gen.EMethod{X: nm("_self"), Name: "m", Args: []gen.Expr{str("z")}}, Name: "wrap"}}, tx("end")),
+			"inc": tpl("inc", tx("I("), pr(&gen.ECall{Fn: "fn", Args: []gen.Expr{str("inc")}}), tx(")"))}
+	},
+}
+
 func (p *c08) Run(i int) (res fw.Result) {
+	if i >= p.nEnum+p.nRand+c08Rec+c08Many {
+		j := i - (p.nEnum + p.nRand + c08Rec + c08Many)
+		prog := &Program{Templates: c08Special[j](), Main: "main", Ctx: map[string]interface{}{}}
+		sig := fmt.Sprintf("special/%d", j)
+		if _, _, ok := modelCase(&res, "c08:"+sig, prog, gen.Canon{}, true); !ok {
+			res.Fail("harness", "c08:oor:"+sig, "case left the model's region ("+lastLayout+")", prog.describe())
+		}
+		// ... and rendered into io.Discard the callbacks are the same
+		a, d := runLib(prog, gen.Canon{}, false), runLibTo(prog, gen.Canon{}, false, io.Discard)
+		if d.pan != nil || (d.err == nil) != (a.err == nil) || callsString(d.calls) != callsString(a.calls) {
+			res.Fail("destination-matters", "c08:"+sig+":discard", fmt.Sprintf("rendered into io.Discard: error %v, panic %v, callbacks [%s]; into a buffer: error %v, callbacks [%s]", d.err, d.pan, clip(callsString(d.calls), 300), a.err, clip(callsString(a.calls), 300)), prog.describe())
+		}
+		res.AddClass("special")
+		res.UniqueNT = 1
+		return
+	}
 	if i >= p.nEnum+p.nRand+c08Rec {
 		prog, sig := p.buildMany(i - p.nEnum - p.nRand - c08Rec)
 		if _, _, ok := modelCase(&res, "c08:"+sig, prog, gen.Canon{}, true); !ok {
